@@ -270,3 +270,85 @@ def split_qname(q):
         p, l = q.split(':', 1)
         return p, l
     return None, q
+
+
+# ------------------------------------------------------------------------------------------------ WSDL model
+
+class Msg:
+    def __init__(self, name, parts):
+        self.name, self.parts = name, list(parts)        # parts: [(part name, element QName)]
+
+
+class Op:
+    def __init__(self, name, input, output=None, body_parts=ABSENT, out_body_parts=ABSENT, headers=(), out_headers=(), action=ABSENT, has_output=True):
+        self.name, self.input, self.output = name, input, output
+        self.body_parts, self.out_body_parts = body_parts, out_body_parts
+        self.headers, self.out_headers = list(headers), list(out_headers)
+        self.action = action
+        self.has_output = has_output         # bool or z3 Bool / Selector-derived presence of <output>
+
+
+class Wsdl:
+    def __init__(self, tns, schema, messages, ops, service='OrdersService', binding='OrdersBinding', port_type='OrdersPort',
+                 location='http://example.com/orders', prefixes=None, extra_schemas=()):
+        self.tns, self.schema, self.messages, self.ops = tns, schema, list(messages), list(ops)
+        self.service, self.binding, self.port_type, self.location = service, binding, port_type, location
+        self.prefixes = prefixes or {}
+        self.extra_schemas = list(extra_schemas)
+
+    def tree(self):
+        w = 'wsdl:'
+        so = 'soap:'
+        nsd = {'wsdl': WSDL, 'soap': SOAP, 'xs': XS, 'tns': self.tns}
+        nsd.update(self.prefixes)
+        kids = [E(w + 'types', {}, [self.schema.tree()] + [x.tree() for x in self.extra_schemas])]
+        for msg in self.messages:
+            ps = []
+            for pn, el in msg.parts:
+                a = {}
+                put(a, 'name', pn)
+                put(a, 'element', el)
+                ps.append(E(w + 'part', a))
+            a = {}
+            put(a, 'name', msg.name)
+            kids.append(E(w + 'message', a, ps))
+        pops = []
+        bops = []
+        for op in self.ops:
+            a = {}
+            put(a, 'name', op.name)
+            io = [E(w + 'input', {'message': attr(op.input)})]
+            if op.output is not None:
+                o = E(w + 'output', {'message': attr(op.output)})
+                io.append(o if op.has_output is True else Opt(o, op.has_output))
+            pops.append(E(w + 'operation', a, io))
+
+            def env(parts, headers):
+                ks = []
+                for h in headers:
+                    ha = {'use': 'literal'}
+                    put(ha, 'message', op.input)
+                    put(ha, 'part', h)
+                    ks.append(E(so + 'header', ha))
+                ba = {'use': 'literal'}
+                put(ba, 'parts', parts)
+                ks.append(E(so + 'body', ba))
+                return ks
+            bk = []
+            sa = {}
+            put(sa, 'soapAction', op.action)
+            bk.append(E(so + 'operation', sa))
+            bk.append(E(w + 'input', {}, env(op.body_parts, op.headers)))
+            if op.output is not None:
+                o = E(w + 'output', {}, env(op.out_body_parts, op.out_headers))
+                bk.append(o if op.has_output is True else Opt(o, op.has_output))
+            bops.append(E(w + 'operation', dict(a), bk))
+        kids.append(E(w + 'portType', {'name': attr(self.port_type)}, pops))
+        kids.append(E(w + 'binding', {'name': attr(self.binding), 'type': smap(lambda p: 'tns:' + p, attr(self.port_type)) if not isinstance(self.port_type, str) else 'tns:' + self.port_type},
+                      [E(so + 'binding', {'style': 'document', 'transport': 'http://schemas.xmlsoap.org/soap/http'})] + bops))
+        bname = 'tns:' + self.binding if isinstance(self.binding, str) else smap(lambda p: 'tns:' + p, attr(self.binding))
+        kids.append(E(w + 'service', {'name': attr(self.service)}, [
+            E(w + 'port', {'name': 'Port', 'binding': bname}, [E(so + 'address', {'location': attr(self.location)})])]))
+        a = {'name': 'Defs'}
+        put(a, 'targetNamespace', self.tns)
+        return E(w + 'definitions', a, kids, ns=nsd)
